@@ -161,7 +161,7 @@ impl Interp {
             ["e2e.start", name, ..] => {
                 let (Some(proto), Some(cipher), Some(spw), Some(cpw), Some(users), Some(mode)) = (kv(t, "protocol"), kv(t, "cipher"), kv(t, "spw"), kv(t, "cpw"), kv(t, "users"), kv(t, "mode")) else { return "bad-op".into() };
                 let threads = kv(t, "threads").and_then(|x| x.parse().ok()).unwrap_or(4);
-                match crate::e2e::World::start(proto, cipher, spw, cpw, &crate::stream::parse_users(users), mode, kv(t, "ws") == Some("1"), kv(t, "link") == Some("1"), threads, kv(t, "tls")) {
+                match crate::e2e::World::start(proto, cipher, spw, cpw, &crate::stream::parse_users(users), mode, kv(t, "cmode"), kv(t, "ws") == Some("1"), kv(t, "link") == Some("1"), threads, kv(t, "tls")) {
                     Ok(w) => {
                         self.objs.insert(name.to_string(), Obj::World(w));
                         "ok".into()
@@ -190,6 +190,16 @@ impl Interp {
                 let Some(Obj::World(w)) = self.objs.get(*name) else { return "bad-op".into() };
                 let (Some(sizes), Some(seed)) = (kv(t, "sizes"), kv(t, "seed").and_then(|x| x.parse::<u64>().ok())) else { return "bad-op".into() };
                 w.udp_flow(&crate::e2e::payload(seed, &crate::e2e::parse_sizes(sizes)))
+            }
+            ["e2e.udpm", name, ..] => {
+                let Some(Obj::World(w)) = self.objs.get(*name) else { return "bad-op".into() };
+                let (Some(a), Some(k), Some(per), Some(seed)) = (kv(t, "apps").and_then(|x| x.parse().ok()), kv(t, "targets").and_then(|x| x.parse().ok()), kv(t, "per").and_then(|x| x.parse().ok()), kv(t, "seed").and_then(|x| x.parse().ok())) else { return "bad-op".into() };
+                w.udp_multi(a, k, per, seed)
+            }
+            ["e2e.ssid", name, ..] => {
+                let Some(Obj::World(w)) = self.objs.get(*name) else { return "bad-op".into() };
+                let (Some(n), Some(per)) = (kv(t, "sessions").and_then(|x| x.parse().ok()), kv(t, "per").and_then(|x| x.parse().ok())) else { return "bad-op".into() };
+                w.server_ids(n, per)
             }
             ["e2e.fault", name, kind, junk] => {
                 let (Some(Obj::World(w)), Some(j)) = (self.objs.get(*name), unhex(junk)) else { return "bad-op".into() };
